@@ -3,7 +3,7 @@ from ..core import *
 from ..syncmap_common import *
 
 KEYS = [1, 2]
-MC_INV = ["Linearizable", "ExpInv", "NilInv", "LiveInv", "LockInv"]
+MC_INV = ["Linearizable", "ExpInv", "NilInv", "LiveInv", "LockInv", "RangeCallbackUnlocked"]
 
 
 def mc_consts(threads, nops, setup, maxe=10, keys=KEYS, kinds=ALLK):
